@@ -46,14 +46,14 @@ R == [status |-> O.status, calc |-> O.calc, units |-> O.calc, ds |-> O.ds, fc |-
 OkObs == O.status = "ok"
 
 (* ---- requirement on the logged outcome ---- *)
-ImplCalculator == AtEnd /\ OkObs => /\ (E.ea.calcArg = "none" => O.calc = E.eo.calc)
+ImplCalculator == AtEnd /\ OkObs => /\ (E.ea.calcArg = "none" /\ FromFile(E.ea) => O.calc = E.eo.calc)
                                     /\ O.units = UnitsClass(O.calc)
-ImplDataset == AtEnd => ReqDataset(E.eo, E.es, R) /\ ReqDisplacements(E.eo, E.es, E.ea, E.ee, R)
+ImplDataset == AtEnd => ReqDataset(E.eo, E.es, E.ea, R) /\ ReqDisplacements(E.eo, E.es, E.ea, E.ee, R)
 ImplForceConstants == AtEnd => ReqForceConstants(E.eo, E.es, E.ea, R)
 ImplNac == AtEnd => ReqNac(E.eo, E.es, E.ea, R)
 ImplPhononsFromSaved == AtEnd => ReqPhononsFromSaved(E.eo, E.es, E.ea, E.ee, R) /\ ReqNothingInvented(E.eo, E.es, E.ea, E.ee, R)
 ImplSaveRule == AtEnd => ReqSaveRule(E.eo, E.es, E.w)
-ImplNoAmbientCapture == AtEnd => ReqNoAmbientCapture(E.eo, E.es, R)
+ImplNoAmbientCapture == AtEnd => ReqNoAmbientCapture(E.eo, E.es, E.ea, R) /\ ReqCellArgument(E.ea, R)
 ImplExplicitBeatsAmbient == AtEnd => ReqExplicitBeatsAmbient(E.ea, R)
 (* loading what save() wrote never fails; the one exception is the missing solver for a   *)
 (* type-2 dataset with forces offered by some source                                       *)
@@ -79,7 +79,7 @@ ImplNumbers ==
 ImplPhonons == AtEnd /\ OkObs => O.q.phonons <= 1
 (* whenever the saved file determines the force data and NAC of the reloaded object, phonons were compared *)
 Comparable ==
-  /\ OkObs /\ E.ea.calcArg = "none"
+  /\ OkObs /\ E.ea.calcArg = "none" /\ FromFile(E.ea)
   /\ (O.fc.src = "yaml" \/ (O.fc.src = "produced" /\ O.fc.sym /\ O.ds.src = "yaml"))
   /\ ((E.eo.nac.kind = "none" /\ O.nac.src = "none") \/ O.nac.src = "yaml")
 (* -2: comparable but skipped for the time budget (costly Gonze-Lee NAC), decided by the harness's seed *)
